@@ -684,7 +684,7 @@ class Interp(object):
             k = e["k"]
             if k == "deref":
                 pv = get_path(self.read_cell(st, cell), path)
-                if isinstance(pv, Opaque) and pv.kind == "str" and e is place["p"][-1]:
+                if isinstance(pv, Opaque) and pv.kind in ("str", "string") and e is place["p"][-1]:
                     raise _StrDeref(pv)
                 if not isinstance(pv, Ptr):
                     raise Undecided("deref of %r in %s" % (pv, fr.fn_path))
@@ -834,7 +834,7 @@ class Interp(object):
                 pv = self.read_place(fr, st, inner)
                 if isinstance(pv, Ptr):
                     return Ptr(pv.cell, pv.path, pv.sl, "ref")
-                if isinstance(pv, Opaque) and pv.kind == "str":
+                if isinstance(pv, Opaque) and pv.kind in ("str", "string"):
                     return pv
             return Ptr(cell, path)
         if k == "copy_for_deref":
